@@ -586,60 +586,56 @@ def coq_val(v):
 
 
 def parser_tie(ctx, lib, viol, cov):
-    """model programs (Model/IOProgReader.v) vs Go parsers: same image, same cut, same failing call"""
+    """model programs (Model/IOProgReader.v) vs Go parsers: same image, same cut, same failing call:
+    class, number of I/O calls made, value"""
     mpath = os.path.join(vlib.COQ, "theories", "Model", "IOProgTie.v")
     if not os.path.exists(mpath):
         cov["parser_tie"] = "Model/IOProgTie.v not present"
         return 0
     H = ctx.harness
     rng = ctx.rng
-    small = [(t, p, c) for t, p, c in lib if os.path.getsize(p) <= 6000][: (4 if ctx.tier == "quick" else 12)]
+    small = [(t, p, c) for t, p, c in lib if os.path.getsize(p) <= 6000][: (5 if ctx.tier == "quick" else 12)]
     vparts = ["From HV Require Import Base.Prelude Base.Outcome Base.Bytes Model.IOProg Model.IOProgReader Model.IOProgTie.\n"]
     labels, total = [], 0
     stats = collections.Counter()
+    KINDS = [("eio", 0, 0), ("eof0", 0, 1), ("shortn", 4, 5), ("shortn", 20, 21), ("shortn", 60, 61)]
     for fi, (tag, path, _) in enumerate(small):
         img = open(path, "rb").read()
         size = len(img)
         targets = parser_targets(H, path)
+        if ctx.tier == "quick" and len(targets) > 10:
+            targets = targets[:1] + [targets[i] for i in sorted(rng.sample(range(1, len(targets)), 9))]
         vparts.append('Definition img%d : bytes := unhex "%s".\n' % (fi, img.hex()))
         for ti, (op, addr, args) in enumerate(targets):
-            ncuts = 40 if ctx.tier == "quick" else 200
-            cuts = sorted(set([0, 8, 47, 48, 95, 96, size - 1] + [rng.randrange(size) for _ in range(ncuts)]
-                              + [min(size - 1, max(0, addr + d)) for d in range(-2, 40, 3)]))
+            ncuts = 12 if ctx.tier == "quick" else 120
+            cuts = sorted(set([0, 47, 48, 95, 96, size - 1] + [rng.randrange(size) for _ in range(ncuts)]
+                              + [min(size - 1, max(0, addr + d)) for d in (-1, 0, 1, 7, 8, 15, 16, 17, 40)]))
             intact = vlib.run_harness(H, "c17parse", [dict(img=img.hex(), op=op, addr=addr, args=args, cuts=[-1], fault=[-1])])[0]["res"][0]
             ncalls = intact["calls"]
-            ks = list(range(ncalls)) if ncalls <= 40 else sorted(set(list(range(20)) + [rng.randrange(ncalls) for _ in range(20)]))
-            batch = []   # (cut, faultk, kindcode)
-            for c in cuts:
-                batch.append((c, -1, "eio"))
-            for k in ks:
-                for kind in ("eio", "eof0", "short"):
-                    batch.append((-1, k, kind))
-            for _ in range(10):
-                batch.append((rng.randrange(size), rng.randrange(max(1, ncalls)), "eio"))
+            maxk = 12 if ctx.tier == "quick" else 60
+            ks = list(range(ncalls)) if ncalls <= maxk else sorted(set(list(range(maxk // 2)) + [rng.randrange(ncalls) for _ in range(maxk // 2)]))
             res = []
-            for kind in ("eio", "eof0", "short"):
-                sel = [b for b in batch if b[2] == kind]
-                if not sel:
-                    continue
-                r = vlib.run_harness(H, "c17parse", [dict(img=img.hex(), op=op, addr=addr, args=args, kind=kind,
-                                                          cuts=[b[0] for b in sel], fault=[b[1] for b in sel])])[0]["res"]
-                res += list(zip(sel, r))
+            r = vlib.run_harness(H, "c17parse", [dict(img=img.hex(), op=op, addr=addr, args=args, kind="eio", cuts=cuts, fault=[-1] * len(cuts))])[0]["res"]
+            res += [((c, -1, 0), x) for c, x in zip(cuts, r)]
+            for kind, shortn, code in KINDS:
+                extra = [(rng.randrange(size), rng.randrange(max(1, ncalls))) for _ in range(2)]
+                cs = [-1] * len(ks) + [e[0] for e in extra]
+                fs = ks + [e[1] for e in extra]
+                r = vlib.run_harness(H, "c17parse", [dict(img=img.hex(), op=op, addr=addr, args=args, kind=kind, shortn=shortn, cuts=cs, fault=fs)])[0]["res"]
+                res += [((c, k, code), x) for c, k, x in zip(cs, fs, r)]
             # specification on the implementation's outputs: equal to the intact answer or an error, never a panic
-            for (cut, k, kind), r in res:
+            for (cut, k, code), r in res:
                 stats["%s:%s" % (op, ("ok", "err", "panic")[r["class"]])] += 1
                 if r["class"] == 2 or (r["class"] == 0 and (intact["class"] != 0 or r.get("v") != intact.get("v"))):
-                    viol.append(dict(what="%s: parser %s@%d cut=%d fault=%d/%s returns %s" % (tag, op, addr, cut, k, kind, ("a different value", "", "a panic")[r["class"]]),
-                                     failing_input=dict(kind="parser", file=path, op=op, addr=addr, cut=cut, fault=k, fault_kind=kind),
+                    viol.append(dict(what="%s: parser %s@%d cut=%d fault=%d/kind%d returns %s" % (tag, op, addr, cut, k, code, ("a different value", "", "a panic")[r["class"]]),
+                                     failing_input=dict(kind="parser", file=path, origin=dict(history=_), op=op, addr=addr, cut=cut, fault=k, fault_code=code),
                                      intact=intact, observed=r))
             name = "cs_%d_%d" % (fi, ti)
-            kcode = {"eio": 0, "eof0": 1, "short": 2}
             vparts.append("Definition v_%s : val := %s.\n" % (name, coq_val(intact.get("v")) if intact["class"] == 0 else "VL []"))
-            vparts.append("Definition %s : list (Z * Z * N * N * bool) := [%s].\n" % (
-                name, ";".join("(%d, %d, %d, %d, %s)" % (cut, k, kcode[kind], r["class"], "true" if r["class"] == 0 else "false")
-                               for (cut, k, kind), r in res)))
-            vparts.append("Definition bad_%s := Eval vm_compute in mismatches (tie_ok %s img%d %d [%s] v_%s) %s.\n" % (
-                name, op_code(op), fi, addr, ";".join(str(a) for a in args), name, name))
+            vparts.append("Definition %s : list (Z * Z * N * N * N) := [%s].\n" % (
+                name, ";".join("((%d)%%Z, (%d)%%Z, %d, %d, %d)" % (cut, k, code, r["class"], r["calls"]) for (cut, k, code), r in res)))
+            vparts.append("Definition bad_%s := Eval vm_compute in mismatches (tie_ok %s img%d %d v_%s) %s.\n" % (
+                name, op_code(op), fi, addr, name, name))
             labels.append(("bad_" + name, tag, op, addr, res, path))
             total += len(res)
     vparts.append("Definition ALLBAD := Eval vm_compute in [%s].\nPrint ALLBAD.\n" % ";".join("N.of_nat (List.length %s)" % l[0] for l in labels))
@@ -656,16 +652,17 @@ def parser_tie(ctx, lib, viol, cov):
             continue
         nbad += n
         bad = vlib.parse_nlist(out, lab)
-        (cut, k, kind), r = res[bad[0]]
-        viol.append(dict(what="%s: Coq program %s@%d and the Go parser disagree at cut=%d fault=%d/%s (Go class %d)" % (tag, op, addr, cut, k, kind, r["class"]),
-                         case=dict(kind="parser", file=path, op=op, addr=addr, cut=cut, fault=k, fault_kind=kind), impl=r, nofail=True,
-                         correspondence="Model.IOProgReader.%s vs Go; theorems C17_%s_*" % (op, op)))
+        (cut, k, code), r = res[bad[0]]
+        viol.append(dict(what="%s: Coq program %s@%d and the Go parser disagree at cut=%d fault=%d/kind%d (Go class %d, %d calls); %d of %d cases" % (
+                             tag, op, addr, cut, k, code, r["class"], r["calls"], n, len(res)),
+                         case=dict(kind="parser", file=path, op=op, addr=addr, cut=cut, fault=k, fault_code=code), impl=r, nofail=True,
+                         correspondence="Model.IOProgReader (%s) vs Go; theorems C17_*_%s" % (op, op)))
     cov["parser_tie"] = dict(cases=total, files=[t for t, _, _ in small], programs=sorted(set(l[2] for l in labels)),
                              outcomes=dict(stats), model_disagreements=nbad)
     return total
 
 
-OPCODES = {"superblock": 0, "ohdr": 1, "attrs": 2, "lheap": 3, "snod": 4, "gbtree": 5, "gheap": 6, "raw": 7}
+OPCODES = {"superblock": 0, "ohdr": 1, "attrs": 2, "lheap": 3, "snod": 4, "gbtree": 5, "gheap": 6, "read": 7}
 
 
 def op_code(op):
